@@ -97,7 +97,10 @@ structure DView where
 def Disp.view {κ : Type} (d : Disp κ) : DView :=
   ⟨d.flags, d.emissionEnabled, d.gotFlagsFromHint, d.pendingAux, d.textPending, d.textPendingStart, d.lastTextType, d.rcs⟩
 
-def IsPanic {α : Type} (r : Except Err α) : Prop := ∃ s, r = .error (.panic s)
+/-- a panic of the dispatcher (`"debug_assert: Tag should exist at this point"` is the one panic of a
+lexer action that does not call the sink) -/
+def IsPanic {α : Type} (r : Except Err α) : Prop :=
+  ∃ s, r = .error (.panic s) ∧ s ≠ "debug_assert: Tag should exist at this point"
 
 /-- result of handing a token to the controller -/
 def tokRes {κ : Type} (ctl : Controller κ) (g : κ) (t : Token) : Except Err Unit :=
@@ -151,7 +154,7 @@ theorem emitChunkBefore_spec (d : Disp κ) (inp : Bytes) (raw : Range) :
     refine ⟨hb, _, rfl, ?_, ?_⟩ <;> (try dsimp only) <;> (split <;> rfl)
   · left
     rw [if_neg hb]
-    exact ⟨hb, _, rfl⟩
+    exact ⟨hb, _, rfl, by decide⟩
 
 theorem flushEncodingChange_spec (d : Disp κ) : d.flushEncodingChange.ctl = d.ctl ∧ d.flushEncodingChange.view = d.view := by
   unfold Disp.flushEncodingChange
@@ -160,34 +163,35 @@ theorem flushEncodingChange_spec (d : Disp κ) : d.flushEncodingChange.ctl = d.c
 theorem emitToken_spec (d : Disp κ) (inp : Bytes) (raw : Range) (tok : Token) :
     (¬ d.before inp raw ∧ IsPanic (d.emitToken ctl inp raw tok).2) ∨
     (d.before inp raw ∧ (d.emitToken ctl inp raw tok).2 = tokRes ctl d.ctl tok ∧
-      (tokRes ctl d.ctl tok = .ok () →
-        (d.emitToken ctl inp raw tok).1.ctl = (ctl.token d.ctl tok).1 ∧
-        (d.emitToken ctl inp raw tok).1.view = { d.view with rcs := raw.end })) := by
+      (d.emitToken ctl inp raw tok).1.ctl = (ctl.token d.ctl tok).1 ∧
+      (d.emitToken ctl inp raw tok).1.view =
+        { d.view with rcs := (match tokRes ctl d.ctl tok with | .ok _ => raw.end | .error _ => raw.start) }) := by
   unfold Disp.emitToken
-  rcases emitChunkBefore_spec d inp raw with ⟨hb, s, hs⟩ | ⟨hb, e, he, hc, hv⟩
+  rcases emitChunkBefore_spec d inp raw with ⟨hb, s, hs, hne⟩ | ⟨hb, e, he, hc, hv⟩
   · left
     rw [hs]
-    exact ⟨hb, s, rfl⟩
+    exact ⟨hb, s, rfl, hne⟩
   · right
     rw [he]
     simp only [DRes.ofExcept, DRes.bind]
     obtain ⟨a, b, c⟩ := tokenProduced_spec ctl e tok
     rw [hc] at a b
-    refine ⟨hb, ?_, ?_⟩
-    · cases hr : (Disp.tokenProduced ctl e tok).2 with
-      | error err => rw [← a, hr]
-      | ok u => rw [← a, hr]
-    · intro hok
-      rw [← a] at hok
-      rw [hok]
+    rw [hv] at c
+    generalize Disp.tokenProduced ctl e tok = tp at a b c ⊢
+    refine ⟨hb, ?_⟩
+    cases hr : tp.2 with
+    | error err =>
       dsimp only
-      obtain ⟨f1, f2⟩ := flushEncodingChange_spec ({ (Disp.tokenProduced ctl e tok).1 with rcs := raw.end } : Disp κ)
+      rw [← a, hr]
+      exact ⟨rfl, b, c⟩
+    | ok u =>
+      dsimp only
+      rw [← a, hr]
+      obtain ⟨f1, f2⟩ := flushEncodingChange_spec ({ tp.1 with rcs := raw.end } : Disp κ)
       rw [f1, f2]
-      refine ⟨b, ?_⟩
-      show Disp.view { (Disp.tokenProduced ctl e tok).1 with rcs := raw.end } = _
-      have : Disp.view ({ (Disp.tokenProduced ctl e tok).1 with rcs := raw.end } : Disp κ) =
-          { (Disp.tokenProduced ctl e tok).1.view with rcs := raw.end } := rfl
-      rw [this, c, hv]
+      refine ⟨rfl, b, ?_⟩
+      have : Disp.view ({ tp.1 with rcs := raw.end } : Disp κ) = { tp.1.view with rcs := raw.end } := rfl
+      rw [this, c]
 
 theorem produceText_spec (d : Disp κ) (inp : Bytes) (lx : NonTagLexeme) (tt : TextType) :
     (checkedSlice inp lx.raw = none ∧ IsPanic (d.produceText ctl inp lx tt).2) ∨
@@ -195,21 +199,22 @@ theorem produceText_spec (d : Disp κ) (inp : Bytes) (lx : NonTagLexeme) (tt : T
       ((¬ d.before inp lx.raw ∧ IsPanic (d.produceText ctl inp lx tt).2) ∨
        (d.before inp lx.raw ∧
         (d.produceText ctl inp lx tt).2 = tokRes ctl d.ctl (.text raw tt false (srcOf lx.prevConsumed lx.raw)) ∧
-        (tokRes ctl d.ctl (.text raw tt false (srcOf lx.prevConsumed lx.raw)) = .ok () →
-          (d.produceText ctl inp lx tt).1.ctl = (ctl.token d.ctl (.text raw tt false (srcOf lx.prevConsumed lx.raw))).1 ∧
-          (d.produceText ctl inp lx tt).1.view =
-            { d.view with ltt := tt, tp := true, tps := lx.prevConsumed + lx.raw.end, rcs := lx.raw.end })))) := by
+        (d.produceText ctl inp lx tt).1.ctl = (ctl.token d.ctl (.text raw tt false (srcOf lx.prevConsumed lx.raw))).1 ∧
+        (d.produceText ctl inp lx tt).1.view =
+          (match tokRes ctl d.ctl (.text raw tt false (srcOf lx.prevConsumed lx.raw)) with
+           | .ok _ => { d.view with ltt := tt, tp := true, tps := lx.prevConsumed + lx.raw.end, rcs := lx.raw.end }
+           | .error _ => { d.view with ltt := tt, rcs := lx.raw.start })))) := by
   unfold Disp.produceText
   cases hs : checkedSlice inp lx.raw with
-  | none => left; exact ⟨rfl, _, rfl⟩
+  | none => left; exact ⟨rfl, _, rfl, by decide⟩
   | some raw =>
     right
     refine ⟨raw, rfl, ?_⟩
     dsimp only
-    rcases emitChunkBefore_spec d inp lx.raw with ⟨hb, s, hs'⟩ | ⟨hb, e, he, hc, hv⟩
+    rcases emitChunkBefore_spec d inp lx.raw with ⟨hb, s, hs', hne⟩ | ⟨hb, e, he, hc, hv⟩
     · left
       rw [hs']
-      exact ⟨hb, s, rfl⟩
+      exact ⟨hb, s, rfl, hne⟩
     · right
       rw [he]
       simp only [DRes.ofExcept, DRes.bind]
@@ -223,15 +228,16 @@ theorem produceText_spec (d : Disp κ) (inp : Bytes) (lx : NonTagLexeme) (tt : T
         rw [a]; show tokRes ctl e.ctl _ = _; rw [hc]
       have b' : tp.1.ctl = (ctl.token d.ctl (.text raw tt false (srcOf lx.prevConsumed lx.raw))).1 := by
         rw [b]; show (ctl.token e.ctl _).1 = _; rw [hc]
-      refine ⟨hb, ?_, ?_⟩
-      · cases hr : tp.2 with
-        | error err => dsimp only; rw [← a', hr]
-        | ok u => dsimp only; rw [← a', hr]
-      · intro hok
-        rw [← a'] at hok
-        rw [hok]
+      refine ⟨hb, ?_⟩
+      cases hr : tp.2 with
+      | error err =>
         dsimp only
-        refine ⟨b', ?_⟩
+        rw [← a', hr]
+        exact ⟨rfl, b', c⟩
+      | ok u =>
+        dsimp only
+        rw [← a', hr]
+        refine ⟨rfl, b', ?_⟩
         have : Disp.view ({ tp.1 with textPending := true, textPendingStart := lx.prevConsumed + lx.raw.end, rcs := lx.raw.end } : Disp κ) =
             { tp.1.view with tp := true, tps := lx.prevConsumed + lx.raw.end, rcs := lx.raw.end } := rfl
         rw [this, c]
@@ -260,21 +266,41 @@ def ObsR0 (fS : Flags) (d' : Disp (γ × Flags)) (d : Disp γ) : Prop := ObsV fS
 
 abbrev ObsR (d' : Disp (γ × Flags)) (d : Disp γ) : Prop := ObsR0 d.flags d' d
 
-/-- related outcomes of a dispatcher step: same result (and related dispatchers on success), unless the
-observing run panics -/
+/-- related outcomes of a dispatcher step: same result and related dispatchers (also when `H` fails),
+unless the observing run panics -/
 def DRelO {α : Type} (r' : DRes (γ × Flags) α) (r : DRes γ α) : Prop :=
-  IsPanic r'.2 ∨ (r'.2 = r.2 ∧ ∀ a, r.2 = .ok a → ObsR r'.1 r.1)
+  IsPanic r'.2 ∨ (r'.2 = r.2 ∧ ObsR r'.1 r.1)
 
 theorem DRelO.bind {α β : Type} {r' : DRes (γ × Flags) α} {r : DRes γ α}
     {f' : Disp (γ × Flags) → α → DRes (γ × Flags) β} {f : Disp γ → α → DRes γ β}
     (h : DRelO r' r) (hf : ∀ d' d a, ObsR d' d → DRelO (f' d' a) (f d a)) : DRelO (r'.bind f') (r.bind f) := by
   unfold DRes.bind
-  rcases h with ⟨s, hs⟩ | ⟨h1, h2⟩
-  · left; rw [hs]; exact ⟨s, rfl⟩
+  rcases h with ⟨s, hs, hne⟩ | ⟨h1, h2⟩
+  · left; rw [hs]; exact ⟨s, rfl, hne⟩
   · rw [h1]
     cases hr : r.2 with
-    | error e => right; exact ⟨rfl, fun a ha => by cases ha⟩
-    | ok a => exact hf _ _ a (h2 a hr)
+    | error e => right; exact ⟨rfl, h2⟩
+    | ok a => exact hf _ _ a h2
+
+/-- as `DRelO`, with a postcondition on the result value -/
+def DRelQ {α : Type} (Q : α → Prop) (r' : DRes (γ × Flags) α) (r : DRes γ α) : Prop :=
+  IsPanic r'.2 ∨ (r'.2 = r.2 ∧ ObsR r'.1 r.1 ∧ ∀ a, r.2 = .ok a → Q a)
+
+theorem DRelQ.toO {α : Type} {Q : α → Prop} {r' : DRes (γ × Flags) α} {r : DRes γ α} (h : DRelQ Q r' r) : DRelO r' r := by
+  rcases h with h | ⟨h1, h2, _⟩
+  · exact Or.inl h
+  · exact Or.inr ⟨h1, h2⟩
+
+theorem DRelO.bindQ {α β : Type} {Q : β → Prop} {r' : DRes (γ × Flags) α} {r : DRes γ α}
+    {f' : Disp (γ × Flags) → α → DRes (γ × Flags) β} {f : Disp γ → α → DRes γ β}
+    (h : DRelO r' r) (hf : ∀ d' d a, ObsR d' d → DRelQ Q (f' d' a) (f d a)) : DRelQ Q (r'.bind f') (r.bind f) := by
+  unfold DRes.bind
+  rcases h with ⟨s, hs, hne⟩ | ⟨h1, h2⟩
+  · left; rw [hs]; exact ⟨s, rfl, hne⟩
+  · rw [h1]
+    cases hr : r.2 with
+    | error e => right; exact ⟨rfl, h2, fun a ha => by cases ha⟩
+    | ok a => exact hf _ _ a h2
 
 section
 variable {H : Controller γ} {o : Flags} {inp : Bytes}
@@ -446,44 +472,34 @@ theorem emitToken_both {fS : Flags} {d' : Disp (γ × Flags)} {d : Disp γ} (h :
     (hw : fS.wants t = true) :
     IsPanic (d'.emitToken (withObs H o) inp raw t).2 ∨
     ((d'.emitToken (withObs H o) inp raw t).2 = (d.emitToken H inp raw t).2 ∧
-      ((d.emitToken H inp raw t).2 = .ok () →
-        ObsR0 (fS.after t) (d'.emitToken (withObs H o) inp raw t).1 (d.emitToken H inp raw t).1 ∧
-        (d.emitToken H inp raw t).1.view = { d.view with rcs := raw.end })) := by
+      ObsR0 (fS.after t) (d'.emitToken (withObs H o) inp raw t).1 (d.emitToken H inp raw t).1 ∧
+      (d.emitToken H inp raw t).1.flags = d.flags) := by
   have hc := h.ctl
-  rcases emitToken_spec (withObs H o) d' inp raw t with ⟨_, hp⟩ | ⟨hb', hres', hpost'⟩
+  rcases emitToken_spec (withObs H o) d' inp raw t with ⟨_, hp⟩ | ⟨hb', hres', q1, q2⟩
   · exact Or.inl hp
   · right
-    rcases emitToken_spec H d inp raw t with ⟨hnb, _⟩ | ⟨hb, hres, hpost⟩
+    rcases emitToken_spec H d inp raw t with ⟨hnb, _⟩ | ⟨hb, hres, p1, p2⟩
     · exact absurd (before_mono h hb') hnb
-    · rw [hc, tokRes_wants _ _ _ hw] at hres'
-      refine ⟨by rw [hres', hres], fun hok => ?_⟩
-      rw [hres] at hok
-      obtain ⟨p1, p2⟩ := hpost hok
-      have hok' : tokRes (withObs H o) d'.ctl t = .ok () := by rw [hc, tokRes_wants _ _ _ hw]; exact hok
-      obtain ⟨q1, q2⟩ := hpost' hok'
+    · rw [hc, tokRes_wants _ _ _ hw] at hres' q2
       rw [hc, withObs_token_wants _ _ _ hw] at q1
-      refine ⟨ObsR0.mk' q1 p1 q2 p2 ?_, p2⟩
+      refine ⟨by rw [hres', hres], ObsR0.mk' q1 p1 q2 p2 ?_, congrArg DView.flags p2⟩
       exact ⟨rfl, h.flags, h.sticky, h.emis, h.gf', h.gf, h.pa', h.pa, h.tp, h.tp', Nat.le_refl _⟩
 
 /-- a token only the observers asked for -/
 theorem emitToken_only {fS : Flags} {d' : Disp (γ × Flags)} {d : Disp γ} (h : ObsR0 fS d' d) (raw : Range) (t : Token)
     (hw : fS.wants t = false) (hraw : raw.start ≤ raw.end) :
     IsPanic (d'.emitToken (withObs H o) inp raw t).2 ∨
-    ((d'.emitToken (withObs H o) inp raw t).2 = .ok () ∧ ObsR0 fS (d'.emitToken (withObs H o) inp raw t).1 d ∧
-      (d'.emitToken (withObs H o) inp raw t).1.view = { d'.view with rcs := raw.end }) := by
+    ((d'.emitToken (withObs H o) inp raw t).2 = .ok () ∧ ObsR0 fS (d'.emitToken (withObs H o) inp raw t).1 d) := by
   have hc := h.ctl
-  rcases emitToken_spec (withObs H o) d' inp raw t with ⟨_, hp⟩ | ⟨hb', hres', hpost'⟩
+  rcases emitToken_spec (withObs H o) d' inp raw t with ⟨_, hp⟩ | ⟨hb', hres', q1, q2⟩
   · exact Or.inl hp
   · right
-    rw [hc, tokRes_skip _ _ _ hw] at hres'
-    have hok' : tokRes (withObs H o) d'.ctl t = .ok () := by rw [hc, tokRes_skip _ _ _ hw]
-    obtain ⟨q1, q2⟩ := hpost' hok'
+    rw [hc, tokRes_skip _ _ _ hw] at hres' q2
     rw [hc, withObs_token_skip _ _ _ hw] at q1
-    refine ⟨hres', ObsR0.mk' q1 rfl q2 rfl ?_, q2⟩
+    refine ⟨hres', ObsR0.mk' q1 rfl q2 rfl ?_⟩
     have h1 : d.rcs ≤ d'.rcs := h.rcs
     have h2 := hb'.1
     exact ⟨rfl, h.flags, h.sticky, h.emis, h.gf', h.gf, h.pa', h.pa, h.tp, h.tp', by show d.rcs ≤ raw.end; omega⟩
-
 
 theorem ObsV.setFlags {fS : Flags} {c' : γ × Flags} {c : γ} {v' v : DView} (h : ObsV fS c' c v' v) (f1 f1' : Flags)
     (hj : ∃ o1, f1' = f1.join o1) (hs : f1.sticky = v.flags.sticky) (ht : f1.text = v.flags.text) :
@@ -505,7 +521,7 @@ theorem produceTag_obs {d' : Disp (γ × Flags)} {d : Disp γ} (h : ObsR d' d) (
     have hwO := tagWanted_join (o' := o') hwH
     simp only [hwO, if_true]
     cases htok : tagTok inp lx with
-    | none => left; exact ⟨_, rfl⟩
+    | none => left; exact ⟨_, rfl, by decide⟩
     | some t =>
       simp only [Option.map_some]
       obtain ⟨hw, _⟩ := tagTok_facts htok d.flags
@@ -514,13 +530,11 @@ theorem produceTag_obs {d' : Disp (γ × Flags)} {d : Disp γ} (h : ObsR d' d) (
         refine ObsR0.mk' (c' := d'.ctl) (c := d.ctl) (v' := { d'.view with flags := (d.flags.join o').after t })
           (v := { d.view with flags := d.flags.after t }) rfl rfl rfl rfl ?_
         exact ObsV.setFlags h _ _ ⟨o'.after t, Flags.join_after _ _ _⟩ (Flags.after_sticky _ _) (Flags.after_text' _ _)
-      rcases emitToken_both (H := H) (o := o) (inp := inp) h1 lx.raw t hw with hp | ⟨e1, e2⟩
+      rcases emitToken_both (H := H) (o := o) (inp := inp) h1 lx.raw t hw with hp | ⟨e1, r1, r2⟩
       · exact Or.inl hp
       · right
-        refine ⟨e1, fun a ha => ?_⟩
-        obtain ⟨r1, r2⟩ := e2 ha
-        have : (Disp.emitToken H ({ d with flags := d.flags.after t } : Disp γ) inp lx.raw t).1.flags = d.flags.after t := by
-          exact congrArg DView.flags r2
+        refine ⟨e1, ?_⟩
+        have : (Disp.emitToken H ({ d with flags := d.flags.after t } : Disp γ) inp lx.raw t).1.flags = d.flags.after t := r2
         unfold ObsR
         rw [this]
         exact r1
@@ -530,7 +544,7 @@ theorem produceTag_obs {d' : Disp (γ × Flags)} {d : Disp γ} (h : ObsR d' d) (
     | false =>
       simp only [Bool.false_eq_true, if_false]
       right
-      refine ⟨rfl, fun _ _ => ?_⟩
+      refine ⟨rfl, ?_⟩
       have e1 : ({ d' with flags := d.flags.join o' } : Disp (γ × Flags)) = d' := by rw [← hfl']
       have e2 : ({ d with flags := d.flags } : Disp γ) = d := rfl
       rw [e1, e2]
@@ -540,7 +554,7 @@ theorem produceTag_obs {d' : Disp (γ × Flags)} {d : Disp γ} (h : ObsR d' d) (
       have e2 : ({ d with flags := d.flags } : Disp γ) = d := rfl
       rw [e2]
       cases htok : tagTok inp lx with
-      | none => left; exact ⟨_, rfl⟩
+      | none => left; exact ⟨_, rfl, by decide⟩
       | some t =>
         simp only [Option.map_some]
         obtain ⟨hw, hraw⟩ := tagTok_facts htok d.flags
@@ -549,11 +563,10 @@ theorem produceTag_obs {d' : Disp (γ × Flags)} {d : Disp γ} (h : ObsR d' d) (
           refine ObsR0.mk' (c' := d'.ctl) (c := d.ctl) (v' := { d'.view with flags := (d.flags.join o').after t })
             (v := { d.view with flags := d.flags }) rfl rfl rfl rfl ?_
           exact ObsV.setFlags h _ _ ⟨o'.after t, Flags.join_after_skip _ _ _ hw⟩ rfl rfl
-        rcases emitToken_only (H := H) (o := o) (inp := inp) h1 lx.raw t hw hraw with hp | ⟨e1, e3, _⟩
+        rcases emitToken_only (H := H) (o := o) (inp := inp) h1 lx.raw t hw hraw with hp | ⟨e1, e3⟩
         · exact Or.inl hp
         · right
-          exact ⟨e1, fun _ _ => e3⟩
-
+          exact ⟨e1, e3⟩
 
 /-! ### non-tag lexemes -/
 
@@ -667,7 +680,7 @@ theorem produceText_obs {d' : Disp (γ × Flags)} {d : Disp γ} (h : ObsR d' d) 
     simp only [if_true]
     rcases produceText_spec (withObs H o) d' inp lx tt with ⟨_, hp⟩ | ⟨raw, hraw, hrest'⟩
     · exact Or.inl hp
-    · rcases hrest' with ⟨_, hp⟩ | ⟨hb', hres', hpost'⟩
+    · rcases hrest' with ⟨_, hp⟩ | ⟨hb', hres', q1, q2⟩
       · exact Or.inl hp
       · right
         rcases produceText_spec H d inp lx tt with ⟨hn, _⟩ | ⟨raw2, hraw2, hrest⟩
@@ -675,42 +688,43 @@ theorem produceText_obs {d' : Disp (γ × Flags)} {d : Disp γ} (h : ObsR d' d) 
         · rw [hraw] at hraw2
           simp only [Option.some.injEq] at hraw2
           subst hraw2
-          rcases hrest with ⟨hnb, _⟩ | ⟨hb, hres, hpost⟩
+          rcases hrest with ⟨hnb, _⟩ | ⟨hb, hres, p1, p2⟩
           · exact absurd (before_mono h hb') hnb
           · have hw : d.flags.wants (.text raw tt false (srcOf lx.prevConsumed lx.raw)) = true := by
               simpa [Flags.wants] using hfT
-            rw [hc, tokRes_wants _ _ _ hw] at hres'
-            refine ⟨by rw [hres', hres], fun a ha => ?_⟩
-            rw [hres] at ha
-            have hok : tokRes H d.ctl (.text raw tt false (srcOf lx.prevConsumed lx.raw)) = .ok () := by
-              cases a; exact ha
-            obtain ⟨p1, p2⟩ := hpost hok
-            have hok' : tokRes (withObs H o) d'.ctl (.text raw tt false (srcOf lx.prevConsumed lx.raw)) = .ok () := by
-              rw [hc, tokRes_wants _ _ _ hw]; exact hok
-            obtain ⟨q1, q2⟩ := hpost' hok'
+            rw [hc, tokRes_wants _ _ _ hw] at hres' q2
             rw [hc, withObs_token_wants _ _ _ hw] at q1
-            refine ObsR.mk' q1 p1 q2 p2 ?_
-            exact ⟨rfl, h.flags, h.sticky, h.emis, h.gf', h.gf, h.pa', h.pa,
-              fun _ => ⟨rfl, rfl, rfl, hfT⟩, fun hh => (by cases hh), Nat.le_refl _⟩
+            refine ⟨by rw [hres', hres], ?_⟩
+            cases hr : tokRes H d.ctl (.text raw tt false (srcOf lx.prevConsumed lx.raw)) with
+            | ok u =>
+              rw [hr] at q2 p2
+              refine ObsR.mk' q1 p1 q2 p2 ?_
+              exact ⟨rfl, h.flags, h.sticky, h.emis, h.gf', h.gf, h.pa', h.pa,
+                fun _ => ⟨rfl, rfl, rfl, hfT⟩, fun hh => (by cases hh), Nat.le_refl _⟩
+            | error err =>
+              rw [hr] at q2 p2
+              refine ObsR.mk' q1 p1 q2 p2 ?_
+              exact ⟨rfl, h.flags, h.sticky, h.emis, h.gf', h.gf, h.pa', h.pa,
+                fun hh => (by
+                  obtain ⟨a1, a2, _, a4⟩ := h.tp hh
+                  exact ⟨a1, a2, rfl, a4⟩),
+                h.tp', Nat.le_refl _⟩
   | false =>
     simp only [Bool.false_eq_true, if_false]
     cases hfO : d'.flags.text with
-    | false => simp only [Bool.false_eq_true, if_false]; right; exact ⟨rfl, fun _ _ => h⟩
+    | false => simp only [Bool.false_eq_true, if_false]; right; exact ⟨rfl, h⟩
     | true =>
       simp only [if_true]
       rcases produceText_spec (withObs H o) d' inp lx tt with ⟨_, hp⟩ | ⟨raw, hraw, hrest'⟩
       · exact Or.inl hp
-      · rcases hrest' with ⟨_, hp⟩ | ⟨hb', hres', hpost'⟩
+      · rcases hrest' with ⟨_, hp⟩ | ⟨hb', hres', q1, q2⟩
         · exact Or.inl hp
         · right
           have hw : d.flags.wants (.text raw tt false (srcOf lx.prevConsumed lx.raw)) = false := by
             simpa [Flags.wants] using hfT
-          rw [hc, tokRes_skip _ _ _ hw] at hres'
-          have hok' : tokRes (withObs H o) d'.ctl (.text raw tt false (srcOf lx.prevConsumed lx.raw)) = .ok () := by
-            rw [hc, tokRes_skip _ _ _ hw]
-          obtain ⟨q1, q2⟩ := hpost' hok'
+          rw [hc, tokRes_skip _ _ _ hw] at hres' q2
           rw [hc, withObs_token_skip _ _ _ hw] at q1
-          refine ⟨hres', fun _ _ => ?_⟩
+          refine ⟨hres', ?_⟩
           refine ObsR.mk' q1 rfl q2 rfl ?_
           have hdtp : d.view.tp = false := by
             cases hh : d.view.tp with
@@ -742,44 +756,41 @@ theorem produceNonTag_obs {d' : Disp (γ × Flags)} {d : Disp γ} (h : ObsR d' d
         have hwO := ntWanted_join (o' := o') hwH
         simp only [hwO, if_true]
         cases htok : ntTok inp lx with
-        | none => left; exact ⟨_, rfl⟩
+        | none => left; exact ⟨_, rfl, by decide⟩
         | some t =>
           simp only [Option.map_some]
           obtain ⟨hw, _⟩ := ntTok_facts htok d.flags
           rw [hwH] at hw
-          rcases emitToken_both (H := H) (o := o) (inp := inp) h lx.raw t hw with hp | ⟨e1, e2⟩
+          rcases emitToken_both (H := H) (o := o) (inp := inp) h lx.raw t hw with hp | ⟨e1, r1, r2⟩
           · exact Or.inl hp
           · right
-            refine ⟨e1, fun a ha => ?_⟩
-            obtain ⟨r1, r2⟩ := e2 ha
-            have : (Disp.emitToken H d inp lx.raw t).1.flags = d.flags := congrArg DView.flags r2
+            refine ⟨e1, ?_⟩
             unfold ObsR
-            rw [this]
+            rw [r2]
             rw [Flags.after_nt htok] at r1
             exact r1
       | false =>
         simp only [Bool.false_eq_true, if_false]
         cases hwO : ntWanted (d.flags.join o') lx with
-        | false => simp only [Bool.false_eq_true, if_false]; right; exact ⟨rfl, fun _ _ => h⟩
+        | false => simp only [Bool.false_eq_true, if_false]; right; exact ⟨rfl, h⟩
         | true =>
           simp only [if_true]
           cases htok : ntTok inp lx with
-          | none => left; exact ⟨_, rfl⟩
+          | none => left; exact ⟨_, rfl, by decide⟩
           | some t =>
             simp only [Option.map_some]
             obtain ⟨hw, hraw⟩ := ntTok_facts htok d.flags
             rw [hwH] at hw
-            rcases emitToken_only (H := H) (o := o) (inp := inp) h lx.raw t hw hraw with hp | ⟨e1, e3, _⟩
+            rcases emitToken_only (H := H) (o := o) (inp := inp) h lx.raw t hw hraw with hp | ⟨e1, e3⟩
             · exact Or.inl hp
             · right
-              exact ⟨e1, fun _ _ => e3⟩
+              exact ⟨e1, e3⟩
   | none =>
     dsimp only
     rw [nonTagToToken_eq, nonTagToToken_eq]
     have e1 : ∀ g, ntWanted g lx = false := by intro g; unfold ntWanted; rw [hol]
     simp only [e1, Bool.false_eq_true, if_false]
-    right; exact ⟨rfl, fun _ _ => h⟩
-
+    right; exact ⟨rfl, h⟩
 
 /-! ### flag decisions -/
 
@@ -841,11 +852,11 @@ theorem answerAux_obs {d' : Disp (γ × Flags)} {d : Disp γ} (h : ObsR d' d) (h
     | ok f1 =>
       rw [withObs_aux_ok hr]
       right
-      exact ⟨rfl, fun _ _ => h.decide (o := o) htp htp' g' f1 (hs.aux _ _ _ (by rw [hr]))⟩
+      exact ⟨rfl, h.decide (o := o) htp htp' g' f1 (hs.aux _ _ _ (by rw [hr]))⟩
     | error e =>
       rw [withObs_aux_err hr]
       right
-      exact ⟨rfl, fun a ha => by cases ha⟩
+      exact ⟨rfl, h.setCtl g'⟩
 
 theorem adjust_obs {d' : Disp (γ × Flags)} {d : Disp γ} (h : ObsR d' d) (htp : d.textPending = false)
     (htp' : d'.textPending = false) (lx : TagLexeme) :
@@ -859,7 +870,7 @@ theorem adjust_obs {d' : Disp (γ × Flags)} {d : Disp γ} (h : ObsR d' d) (htp 
   | startTag name hsh ns as sc =>
     dsimp only
     cases LocalName.new inp name hsh with
-    | none => left; exact ⟨_, rfl⟩
+    | none => left; exact ⟨_, rfl, by decide⟩
     | some ln =>
       dsimp only
       rw [hc]
@@ -869,23 +880,23 @@ theorem adjust_obs {d' : Disp (γ × Flags)} {d : Disp γ} (h : ObsR d' d) (htp 
         | flags f1 =>
           rw [withObs_start_flags hr]
           right
-          exact ⟨rfl, fun _ _ => h.decide (o := o) htp htp' g' f1 (hs.start _ _ _ _ (by rw [hr]))⟩
+          exact ⟨rfl, h.decide (o := o) htp htp' g' f1 (hs.start _ _ _ _ (by rw [hr]))⟩
         | infoRequest =>
           rw [withObs_start_info hr]
           exact answerAux_obs (o := o) hs (h.setCtl g') htp htp' _
         | err e =>
           rw [withObs_start_err hr]
           right
-          exact ⟨rfl, fun a ha => by cases ha⟩
+          exact ⟨rfl, h.setCtl g'⟩
   | endTag name hsh =>
     dsimp only
     cases LocalName.new inp name hsh with
-    | none => left; exact ⟨_, rfl⟩
+    | none => left; exact ⟨_, rfl, by decide⟩
     | some ln =>
       dsimp only
       rw [hc]
       right
-      refine ⟨rfl, fun _ _ => ?_⟩
+      refine ⟨rfl, ?_⟩
       exact h.decide (o := o) htp htp' (H.endTag d.ctl ln).1 (H.endTag d.ctl ln).2 (hs.end_ _ _)
 
 omit hs in
@@ -902,25 +913,26 @@ theorem resume_obs {d' : Disp (γ × Flags)} {d : Disp γ} (h : ObsR d' d) (lx :
     exact ⟨hc, h.flags, h.sticky, rfl, h.gf', h.gf, h.pa', h.pa, h.tp, h.tp', Nat.le_refl _⟩
   · exact h
 
-/-- **one tag lexeme**: same directive, related dispatchers — unless the observing run panics -/
+/-- **one tag lexeme**: same directive (`lex`: `H`'s flags are never empty), related dispatchers — unless
+the observing run panics -/
 theorem handleTag_obs {d' : Disp (γ × Flags)} {d : Disp γ} (h : ObsR d' d) (lx : TagLexeme) :
-    DRelO (Disp.handleTag (withObs H o) inp lx d') (Disp.handleTag H inp lx d) := by
+    DRelQ (fun dir => dir = Directive.lex) (Disp.handleTag (withObs H o) inp lx d') (Disp.handleTag H inp lx d) := by
   unfold Disp.handleTag
   obtain ⟨f1, f2, f3, f4⟩ := flush_obs (H := H) (o := o) h
   cases hfr : (d.flushPendingText H).2 with
   | error e =>
     rw [DRes.bind_err' _ hfr, DRes.bind_err' _ (by rw [f1, hfr])]
     right
-    exact ⟨rfl, fun a ha => by cases ha⟩
+    exact ⟨rfl, f2, fun a ha => by cases ha⟩
   | ok u =>
     rw [DRes.bind_ok' _ hfr, DRes.bind_ok' _ (by rw [f1, hfr])]
     have g1 : (d.flushPendingText H).1.gotFlagsFromHint = false := f2.gf
     have g2 : (d'.flushPendingText (withObs H o)).1.gotFlagsFromHint = false := f2.gf'
     rw [g1, g2]
     simp only [Bool.false_eq_true, if_false]
-    apply DRelO.bind (adjust_obs hs f2 f3 f4 lx)
+    apply DRelO.bindQ (adjust_obs hs f2 f3 f4 lx)
     intro e' e _ hR
-    apply DRelO.bind (produceTag_obs (resume_obs hR lx) lx)
+    apply DRelO.bindQ (produceTag_obs (resume_obs hR lx) lx)
     intro k' k _ hK
     right
     have hcK : k'.ctl = (k.ctl, k.flags) := hK.ctl
@@ -929,13 +941,15 @@ theorem handleTag_obs {d' : Disp (γ × Flags)} {d : Disp γ} (h : ObsR d' d) (l
     have hst : k.flags.sticky = true := hK.sticky
     have hne : k.flags.isEmpty = false := Flags.sticky_nonempty hst
     have hne' : k'.flags.isEmpty = false := by rw [hfl']; exact Flags.sticky_nonempty (Flags.sticky_join hst)
-    refine ⟨?_, fun _ _ => ?_⟩
+    refine ⟨?_, ?_, fun a ha => ?_⟩
     · simp only [Disp.nextDirective, hne, hne']
     · have : (withObs H o).shouldEmit k'.ctl = H.shouldEmit k.ctl := by rw [hcK]; rfl
       rw [this]
       refine ObsR.mk' (c' := k'.ctl) (c := k.ctl) (v' := { k'.view with emis := H.shouldEmit k.ctl })
         (v := { k.view with emis := H.shouldEmit k.ctl }) rfl rfl rfl rfl ?_
       exact ⟨hcK, hK.flags, hK.sticky, rfl, hK.gf', hK.gf, hK.pa', hK.pa, hK.tp, hK.tp', hK.rcs⟩
+    · simp only [Disp.nextDirective, hne, Except.ok.injEq] at ha
+      simpa using ha.symm
 
 omit hs in
 /-- **one non-tag lexeme** -/
@@ -955,7 +969,7 @@ theorem handleNonTag_obs {d' : Disp (γ × Flags)} {d : Disp γ} (h : ObsR d' d)
     | error e =>
       rw [DRes.bind_err' _ hfr, DRes.bind_err' _ (by rw [f1, hfr])]
       right
-      exact ⟨rfl, fun a ha => by cases ha⟩
+      exact ⟨rfl, f2⟩
     | ok u =>
       rw [DRes.bind_ok' _ hfr, DRes.bind_ok' _ (by rw [f1, hfr])]
       exact produceNonTag_obs f2 lx
